@@ -32,8 +32,8 @@ out.append("Each change was produced by a fresh sub-agent that saw only the text
            "worktree that the demonstration passes on the clean tree and fails with the change, and that the fixtures still pass;\n"
            "`tools/seed_matrix.py` then applied the change (to /repo, or - to run several at once - to a private git worktree of /repo that a\n"
            "private copy of the driver is built against), ran the quick tier of the property's own check and of its closest neighbours\n"
-           "(`checks_run` in each meta.json; `MATRIX_ALL=1` runs all 20) and undid it. Files: `seeded/<id>/`. Ten batches: a-c (rounds 1-2), d/e (round 3),\n"
-           "f (round 4), g (round 5), h (round 6), i (round 7), j (round 8); every later round was told what the earlier ones had produced and asked for different sites.\n"
+           "(`checks_run` in each meta.json; `MATRIX_ALL=1` runs all 20) and undid it. Files: `seeded/<id>/`. Eleven batches: a-c (rounds 1-2), d/e (round 3),\n"
+           "f (round 4), g (round 5), h (round 6), i (round 7), j (round 8), k (round 9: three changes, one each for C03, C13, C17); every later round was told what the earlier ones had produced and asked for different sites.\n"
            "The last column is the honest record of what the checks missed when first confronted with the change, or - where it starts with\n"
            "`predicted` - what was added after reading the sub-agent's description and before the first trial.\n")
 stats = {"n": 0, "own": 0, "missed_first": 0, "predicted": 0}
